@@ -31,6 +31,15 @@ class Recorder(object):
         self.objs = []
         self.oid = {}
         self.depth = 0
+        self.held = {}          # frame id -> [(returned array object, copy)]: results a caller may still hold
+
+    def hold(self, f, ret):
+        if isinstance(ret, np.ndarray):
+            self.held.setdefault(f, []).append((ret, np.array(ret, copy=True)))
+            del self.held[f][:-3]
+
+    def held_ok(self, f):
+        return bool(all(np.array_equal(r, c) for r, c in self.held.get(f, [])))
 
     def fid(self, fr):
         k = id(fr)
@@ -129,7 +138,9 @@ def recording(rec):
               "st": "ok" if exc is None else type(exc).__name__,
               "axes_same": rec.axes_same(before_axes, rec.axes(self)),
               "data_same": bool(after.shape == before.shape and np.array_equal(after, before))}
+        ev["held_ok"] = rec.held_ok(f)
         if exc is None:
+            rec.hold(f, ret)
             ev["delta_ok"] = _delta_ok(before, after, ret)
             rm, rs = _reest(after)
             ev["is_reest"] = bool(_close(self.noise_mean, rm) and _close(self.noise_std, rs))
@@ -210,7 +221,10 @@ def recording(rec):
                       "axes_same": rec.axes_same(before_axes, rec.axes(self)),
                       "meta_same": bool(meta is None or meta == self.metadata),
                       "data_same": bool(after.shape == before.shape and np.array_equal(after, before)),
-                      "delta_ok": bool(exc is None and _delta_ok(before, after, ret))}
+                      "delta_ok": bool(exc is None and _delta_ok(before, after, ret)),
+                      "held_ok": rec.held_ok(f)}
+                if exc is None:
+                    rec.hold(f, ret)
                 rec.events.append(ev)
                 if exc is not None:
                     raise exc
